@@ -14,7 +14,7 @@ from datetime import datetime, timedelta, timezone
 from typing import Any, Iterable
 
 VERIF = os.path.dirname(os.path.dirname(os.path.abspath(__file__)))
-DRIVER = os.path.join(VERIF, "lean", ".lake", "build", "bin", "driver")
+DRIVER = os.path.join(os.environ.get("VERIF_LEAN_DIR") or os.path.join(VERIF, "lean"), ".lake", "build", "bin", "driver")
 
 _EPOCH_AWARE = datetime(1970, 1, 1, tzinfo=timezone.utc)
 _EPOCH_NAIVE = datetime(1970, 1, 1)
